@@ -513,6 +513,11 @@ def _b_str(interp, args, kwargs, state, node):
         return x
     if T.is_const(x) and len(args) == 1 and not isinstance(x, (float,)):
         return str(x)
+    if (len(args) >= 2 or 'encoding' in kwargs or 'errors' in kwargs) and \
+            isinstance(x, Sym):
+        # str(b, encoding[, errors]) is b.decode(encoding[, errors])
+        return call_method(interp, x, 'decode', list(args[1:]), kwargs,
+                           state, node)
     return Sym('str', *[_t(a) for a in args])
 
 
@@ -534,6 +539,12 @@ def _b_bytes(interp, args, kwargs, state, node):
     t = T.typeof(x)
     if t == {'bytes'} and len(args) == 1:
         return x
+    if (len(args) >= 2 or 'encoding' in kwargs or 'errors' in kwargs) and \
+            isinstance(x, Sym):
+        # bytes(s, encoding[, errors]) is s.encode(encoding[, errors]);
+        # a non-str first argument is a TypeError either way
+        return call_method(interp, x, 'encode', list(args[1:]), kwargs,
+                           state, node)
     if len(args) == 1:
         seq = static_sequence(interp, x, state)
         if seq is not None and all(isinstance(i, int) and
